@@ -255,6 +255,30 @@ static void c_case(uint64_t idx, void *ctx)
     mc_nontrivial();
 }
 
+
+/* ------------------------------------------------------------------ %dirscan on directories whose listing reaches the line-buffer limit */
+static void ds_desc(uint64_t idx, void *ctx, char *b, size_t n) { (void) ctx; static const int nl[2] = { 255, 127 }; int L = nl[idx / 5], k = (int) (CONFIG_BUFF / (L + 1)) - 2 + (int) (idx % 5); snprintf(b, n, "%%dirscan() of a directory with %d regular files whose names have %d characters (%d bytes of listing, buffer %d)", k, L, k * (L + 1), CONFIG_BUFF); }
+static void ds_case(uint64_t idx, void *ctx)
+{
+    static const int nl[2] = { 255, 127 }; int L = nl[idx / 5], k = (int) (CONFIG_BUFF / (L + 1)) - 2 + (int) (idx % 5); (void) ctx;
+    char dir[300], path[700], name[300];
+    const char *shape = k * (L + 1) >= CONFIG_BUFF ? "listing reaches the buffer size" : "listing below the buffer size";
+    mc_set_shape(shape);
+    snprintf(dir, sizeof dir, "%s/ds-%d-%d", scratch(), (int) getpid(), (int) idx); mkdir(dir, 0700);
+    for (int i = 0; i < k; i++) { memset(name, 'n', (size_t) L); name[L] = 0; snprintf(name, 8, "%06d", i); name[6] = 'n'; snprintf(path, sizeof path, "%s/%s", dir, name); write_file(path, "", 0); }
+    names_once(); spifconf_init_subsystem();
+    char *b = malloc(CONFIG_BUFF); snprintf(b, CONFIG_BUFF, "%%dirscan(%s)", dir);
+    g_env_on = 1; g_allow_fork = 0;
+    char *r = (char *) spifconf_shell_expand((spif_charptr_t) b);
+    g_env_on = 0; g_allow_fork = 1;
+    if (r && strnlen(r, CONFIG_BUFF) >= CONFIG_BUFF) FAIL("builtin_dirscan", "model:too-long", shape, "result not terminated within the line buffer");
+    free(b);
+    spifconf_free_subsystem();
+    for (int i = 0; i < k; i++) { memset(name, 'n', (size_t) L); name[L] = 0; snprintf(name, 8, "%06d", i); name[6] = 'n'; snprintf(path, sizeof path, "%s/%s", dir, name); unlink(path); }
+    rmdir(dir);
+    mc_nontrivial();
+}
+
 int main(int argc, char **argv)
 {
     mc_init("C11", argc, argv);
@@ -268,6 +292,7 @@ int main(int argc, char **argv)
     mc_e2_level("paths", 1, (uint64_t) NPLEN * (NPLEN + 1) * NPL, p_case, p_desc, NULL);
     mc_e2_level("temp_file", 1, 64, t_case, t_desc, NULL);
     mc_e2_level("counters", 300, 301, c_case, c_desc, NULL);
+    mc_e2_level("dirscan_limit", 1, 10, ds_case, ds_desc, NULL);
     { mc_sys sys = { "lifecycle", NLOPS, l_name, l_fresh, l_enabled, l_apply, NULL, l_canon, l_teardown }; mc_e1_run(&sys, (int) mc_arg_int("depth", mc_thorough() ? 9 : 7)); }
     return mc_finish();
 }
